@@ -114,3 +114,28 @@ package handlers
 //@   assigns h.activeCommands
 //@ func (*baseHandler).handleOptions
 //@   assigns h.mutex, h.once, h.quiet, h.plain, h.serverless
+
+// ---- framing (C01 S4, C07, C12) -------------------------------------------------------------------
+// Read hands one message per call to the transport: <record> 0xAC. Ghosts set
+// by the receive that was taken: g_kind (1 server message, 2 mapreduce
+// message, 3 line), and for a line its content / number / source id.
+// A message that does not fit into p stays in readBuf and is handed out first
+// by the following calls: output so far + remainder == the record.
+//@ func (*baseHandler).Read
+//@   ghost-init g_kind == 0
+//@   ghost-init g_contentStr == ""
+//@   ghost-init g_srcStr == ""
+//@   ghost-init g_count == 0
+//@   on-recv h.lines effect g_kind == 3
+//@   on-recv h.lines effect g_contentStr == content(elem.Content)
+//@   on-recv h.lines effect g_count == elem.Count
+//@   on-recv h.lines effect g_srcStr == elem.SourceID
+//@   on-recv h.serverMessages effect g_kind == 1
+//@   on-recv h.maprMessages effect g_kind == 2
+//@   ensures [remainder-first] implies(len(old(h.readBuf.content)) > 0, g_kind == 0 && str(p[0:n]) + h.readBuf.content == old(h.readBuf.content))
+//@   ensures [nothing-lost] implies(len(old(h.readBuf.content)) == 0 && g_kind == 3 && h.plain, str(p[0:n]) + h.readBuf.content == g_contentStr + "\xac")
+//@   ensures [labelled-line-frame] implies(len(old(h.readBuf.content)) == 0 && g_kind == 3 && !h.plain, hasPrefix(str(p[0:n]) + h.readBuf.content, "REMOTE|" + h.hostname + "|") && hasSuffix(str(p[0:n]) + h.readBuf.content, "|" + itoa(g_count) + "|" + g_srcStr + "|" + g_contentStr + "\xac"))
+//@   at-call WriteString@line.Content.String() [content-has-no-delimiter] !contains(arg1, "\xac")
+//@   at-call WriteString@line.Content.String() [plain-content-not-hidden] implies(h.plain, !hasPrefix(arg1, "."))
+//@   at-call WriteString@"SERVER" [plain-no-extra-bytes] !h.plain
+//@   ensures [n-in-range] 0 <= n && n <= len(p)
